@@ -27,11 +27,16 @@ def _calls_to(fn, key):
     for bi, t in fn.calls():
         if key in (t.get("resolved_key"), t.get("callee_key"), t.get("callee"), t.get("resolved")):
             out.append((bi, t))
+        elif t.get("callee_name") in ("map", "and_then", "map_or", "map_or_else") and (t.get("callee") or "").startswith("core::") and \
+                any(a.get("k") == "const" and key in (a.get("fn"), a.get("fn_res")) for a in t["args"][1:]):
+            out.append((bi, t))     # `stage(path).map(transformation)`: the function is applied to the payload by the combinator
     return out
 
 
 def _try_pass(t):
-    # the `?` operator and Result plumbing carry the value
+    # the `?` operator and Result plumbing carry the value (a `map` that applies a named function does not: its result is that function's)
+    if t.get("callee_name") in ("map", "and_then") and any(a.get("k") == "const" and (a.get("fn") or a.get("fn_res")) for a in t["args"][1:]):
+        return False
     return t.get("callee_name") in ("branch", "from_residual", "map_err", "map", "ok_or", "ok_or_else") and \
         (t.get("callee") or "").startswith("core::")
 
@@ -45,7 +50,11 @@ def _origin_calls(fn, flow, operand, fields=()):
     for o in flow.origins(r, tuple(place_fields(operand["pl"])) + tuple(fields)):
         if o[0] == "call":
             t = fn.term(o[1])
-            outs.add(t.get("resolved_key") or t.get("callee_key") or t.get("callee"))
+            fitem = [a.get("fn_res") or a.get("fn") for a in t["args"][1:] if a.get("k") == "const" and (a.get("fn") or a.get("fn_res"))]
+            if fitem and t.get("callee_name") in ("map", "and_then") and (t.get("callee") or "").startswith("core::"):
+                outs.add(fitem[0])      # `x.map(f)`: the payload is the result of f
+            else:
+                outs.add(t.get("resolved_key") or t.get("callee_key") or t.get("callee"))
         elif o[0] == "arg":
             outs.add("<arg%d>" % o[1])
         else:
